@@ -204,6 +204,34 @@ class RawCont(SVal):
         cx.assume(n.py_getattr(cx, "name").t == kt)  # the node found at a path has that path as its name
         return n
 
+    def py_contains(self, cx, k):
+        # T1: a path is in the raw container iff it was stored (and not deleted) -- asked only for the path just written
+        kt = k.t if isinstance(k, SStr) else z3.StringVal(k)
+        sets = [e for e in cx.fx if e[0] == "raw-set" and z3.eq(e[1], kt)]
+        dels = [e for e in cx.fx if e[0] == "raw-del" and z3.eq(e[1], kt)]
+        return bool(sets) and not dels
+
+    def meth_require_group(self, cx, k):
+        return MetaDirStub(k.t if isinstance(k, SStr) else z3.StringVal(k))
+
+
+class MetaDirStub(SVal):
+    """the node's metadata directory after the rolled-back object is gone: empty or not (other objects of the node)"""
+
+    def __init__(self, path_t):
+        self.path_t = path_t
+
+    def meth_keys(self, cx):
+        empty = cx.choose(2) == 1
+        cx.ghost["metadir_empty"] = empty
+        return [] if empty else ["another-object"]
+
+
+class TocPathStub(SVal):
+    def meth_pop(self, cx, k, *default):
+        cx.effect("uuid-freed", k.t if isinstance(k, (SStr, UuidVal)) else k)
+        return default[0] if default else None
+
 
 class LinksStub(SVal):
     def meth_fresh_uuid(self, cx):
@@ -212,6 +240,12 @@ class LinksStub(SVal):
 
     def meth_register(self, cx, stored):
         cx.effect("links-register", stored)
+        if cx.choose(2) == 1:  # TOCLinks.register -> TOCSchemas._register may fail (no provider for the schema; its contract: nothing written then)
+            cx.ghost["register_failed"] = True
+            cx.py_raise("AttributeError", "no provider")
+
+    def attr__toc_path(self, cx):
+        return TocPathStub()
 
     def meth_unregister(self, cx, uuid):
         cx.effect("links-unregister", uuid.t if isinstance(uuid, (SStr, UuidVal)) else uuid)
@@ -265,6 +299,30 @@ class SetRaw(FnSpec):
 
     def requires(self, cx, a):
         return [("cache-keyed-by-schema-name", objs_keyed_by_schema_name(cx, a.self.fields["_objs"], "rk"))]
+
+    raises_exact = False
+
+    def raises(self, cx, a):
+        return {"AttributeError": z3.BoolVal(True)}
+
+    def on_raise(self, cx, a, exc):
+        # C06 'successful or FAILED': when the TOC registration fails, the attach leaves nothing behind -- no object without link, no reserved
+        # UUID, no cache entry, no empty metadata directory
+        m = a.self
+        objs = m.fields["_objs"]
+        path = z3.Concat(m.fields["_base_dir"].t, z3.StringVal("/"), EPNAME(a.schema_ref.t), z3.StringVal("="), FRESH_UUID)
+        kinds = [e[0] for e in cx.fx]
+        empty = cx.ghost.get("metadir_empty")
+        want = ["fresh-uuid", "raw-set", "links-register", "uuid-freed", "raw-del"] + (["raw-del"] if empty else [])
+        ok = kinds == want
+        k = z3.String(fresh_name("rk"))
+        out = [("failed-attach-is-rolled-back", z3.BoolVal(ok), "the reserved UUID is freed and the stored object removed again (and its metadata directory, if that is empty now)")]
+        if ok:
+            fx = cx.fx
+            out.append(("the-object-just-stored-is-what-is-removed", z3.And(fx[4][1] == path, fx[3][1] == FRESH_UUID, (fx[5][1] == m.fields["_base_dir"].t) if empty else z3.BoolVal(True)), "the roll-back removes exactly what this attach wrote"))
+        name = a.schema_ref.py_getattr(cx, "name").t
+        out.append(("cache-does-not-keep-the-failed-object", z3.And(z3.Not(z3.And(objs.has(name), z3.Not(a.objs0.has(name)))), z3.ForAll([k], z3.Implies(k != name, z3.And(objs.has(k) == a.objs0.has(k), objs.get_term(k) == a.objs0.get_term(k))))), "the node's cache does not list an object that is not stored"))
+        return out
 
     def ensures(self, cx, a, res):
         m = a.self
